@@ -5,6 +5,11 @@ usage: seedpar.py [-j N]"""
 import os, sys, subprocess, shutil, tempfile, glob, re, json
 from concurrent.futures import ThreadPoolExecutor
 V = '/verif'
+# a private copy of the checker: rebuilding bin/mtverif during a sweep must not change its results
+import shutil as _sh, atexit as _ae
+BIN = tempfile.mkdtemp(prefix='mtverif-bin-') + '/mtverif'
+_sh.copy2(V + '/bin/mtverif', BIN)
+_ae.register(lambda: _sh.rmtree(os.path.dirname(BIN), ignore_errors=True))
 jobs = 8
 if '-j' in sys.argv:
     jobs = int(sys.argv[sys.argv.index('-j') + 1])
@@ -28,7 +33,7 @@ def run(p):
         r = subprocess.run(['git', 'apply', '--exclude=*_test.go', '--include=*.go', p], cwd=d, capture_output=True, text=True)
         if r.returncode:
             return name, None, None, None, 'PATCH DOES NOT APPLY'
-        r = subprocess.run([V + '/bin/mtverif', '-repo', d, '-property', 'all', '-no-evidence'], capture_output=True, text=True, env=env)
+        r = subprocess.run([BIN, '-repo', d, '-property', 'all', '-no-evidence'], capture_output=True, text=True, env=env)
         viol, und, rules = [], [], set()
         cur = None
         for l in r.stdout.split('\n'):
